@@ -323,6 +323,12 @@ func (e *runEnv) historyProperty(t *rapid.T) {
 	st := e.stats
 	st.Evaluations++
 	st.Steps += len(ex.Acts)
+	if f.foreign {
+		st.Extra["cases_quoting_prices_in_second_token"]++
+	}
+	if cfg.ExchangeRate != "" {
+		st.Extra["cases_with_exchange_rate_service"]++
+	}
 	for k, v := range kinds {
 		st.ActionKinds[k] += v
 	}
